@@ -622,7 +622,12 @@ def check(prop, tier, keep=False):
                     continue
                 # replay: rerun this harness alone with concrete playback, then natively
                 pb_log = os.path.join(logs_dir, f"{prop}-{tier}-{h['name']}-playback.log")
-                rc2, _w, cmd2 = run_kani(twin_dir, flavour, package, [h], tmo, 1, pb_log, playback=True)
+                # trace generation needs more memory than the verdict itself: use the larger limit
+                MEM_LIMIT_KB[0] = max(MEM_KB, int(os.environ.get("VERIF_BIG_MEM_KB", str(52 * 1024 * 1024))))
+                try:
+                    rc2, _w, cmd2 = run_kani(twin_dir, flavour, package, [h], tmo * 2, 1, pb_log, playback=True)
+                finally:
+                    MEM_LIMIT_KB[0] = MEM_KB
                 cmds.append(cmd2)
                 p2 = parse_log(open(pb_log, errors="replace").read(), [h])[h["full_name"]]
                 tests = [pb["test"] for pb in p2.get("playback", []) if pb["kind"] != "cover"]
